@@ -316,9 +316,9 @@ PROPS["C06"] = {
 PROPS["C14"] = {
     "functions": ["_component._init_component", "_component.start_component", "_component.ComponentContext.add_resource",
                   "_component.ComponentContext.add_resource_factory", "_component.ComponentContext.__init__",
-                  "_utils.PluginContainer.resolve", "_utils.merge_config", "lemma:frame"],
+                  "_utils.PluginContainer.resolve", "_utils.merge_config", "_component.Component.add_component", "lemma:frame"],
     "trusted": COMP_TRUSTED, "assumptions": COMP_ASSUME + ["deep merge = C17 (merge_config contract, proved)",
-                                                           "Component.add_component stores {'type': type or alias, **config} under the alias (bounded harness)"],
+                                                           "Component.add_component stores {'type': type or alias, **config} under the alias (proved: AddComponent contract)"],
     "undecided": ["'equal configurations yield equal trees' (determinism) - bounded harness (second start from the same object)"],
     "level": "other",
     "level_text": "Partly proved, partly bounded. Proved: _init_component merges merge_config(component._child_components, external `components`) in that "
@@ -328,8 +328,9 @@ PROPS["C14"] = {
                   "dictionaries it allocated (so, by induction from start_component's private root copy, the caller's configuration is never written); "
                   "PluginContainer.resolve: non-string returned as is, 'module:attr' resolved as a reference only, entry point names cached / loaded "
                   "once / LookupError; ComponentContext.add_resource/_factory remap the name 'default' to the component's default resource name exactly "
-                  "while the component state is `starting` and pass everything else through. Bounded: add_component, whole-tree equality.",
-    "level_note": "Not counted as proved: Component.add_component, tree equality. fixed: F3.",
+                  "while the component state is `starting` and pass everything else through; Component.add_component refuses (RuntimeError / "
+                  "TypeError / ValueError) before writing and otherwise stores {'type': type or alias, **config} under the alias only. Bounded: whole-tree equality.",
+    "level_note": "Not counted as proved: equality of whole trees / determinism (bounded harness). fixed: F3.",
     "design_ref": "DESIGN.md section 5 (C14)",
     "technique": "contract-based deductive verification of _init_component, PluginContainer.resolve and the ComponentContext add wrappers (pyvc + z3) + bounded harness",
     "explanation": "merge:hard-coded-children-first-external-configuration-overrides, child:* clauses, writes-only-its-own-config-argument-and-dictionaries-it-allocated, "
@@ -389,4 +390,34 @@ PROPS["C19"] = {
     "technique": "contract-based deductive verification of inject()'s resolver closures (pyvc + z3) over the verified lookup contracts + bounded differential harness",
     "explanation": "lookup:in-the-context-current-at-call-time, lookup:annotated-type-and-marker-name, lookup:optional-iff-the-marker-is-optional, "
                    "stores-this-lookups-result-under-this-parameter-name, returns-one-entry-per-marker, flag-unchanged-when-resolution-fails",
+}
+
+
+PROPS["C16"] = {
+    "functions": ["_cli.run", "_utils.merge_config"],
+    "trusted": ["A-RE re.split is a deterministic function of (pattern, string) returning a non-empty list of strings",
+                "A-ENV os.getenv returns None or a string", "yaml.load(stream, AsphaltLoader) returns the parsed document (PyYAML; the three custom "
+                "constructors are one-line wrappers around os.getenv / Path.read_text / Path.read_bytes - bounded harness)",
+                "click delivers the parsed command line as (configfile, service, set_) and turns ClickException into a non-zero exit",
+                "opaque strings: str.split / str.replace are uninterpreted deterministic functions (the escaped-dot regular expression itself is "
+                "not interpreted: the contract pins which pattern and which replacement are applied, the harness checks their effect)",
+                "A-BADARG merge_config raises before writing when given a non-dict", "pyvc dict/list model"],
+    "assumptions": ["Python semantics as encoded by pyvc (DESIGN 2.4); termination not proved",
+                    "the nested descent of --set through existing sections (section.setdefault(part, {})) is checked by the bounded harness only",
+                    "deep merge = C17 (merge_config contract, proved)"],
+    "undecided": ["what the escaped-dot regular expression matches (string theory; bounded harness)", "!Env / !TextFile / !BinaryFile constructors (bounded harness)"],
+    "level": "other",
+    "level_text": "Partly proved, partly bounded. Proved on the real body of the `run` command, all paths: every file's document is merged over the "
+                  "configuration accumulated so far, in the order given (merge_config(config, document), C17); for every --set the key is split with "
+                  "re.split at the unescaped-dot pattern and every part has `\\\\.` replaced by `.`, and the YAML-parsed value is stored under the last part; "
+                  "the service section merged last is: error when no service is defined, else the one named by --service, else by ASPHALT_SERVICE "
+                  "(error if undefined), else the only one, else `default`, else error - merged over the remaining top-level configuration "
+                  "(merge_config(config, section)); run_application is called exactly once, last, and never when the command fails. Bounded "
+                  "(differential harness against an independent reference model, 1725 / 40225 command lines): effect of the regular expression, "
+                  "nested --set paths, YAML typing of values, custom tags, click integration.",
+    "level_note": "Not counted as proved: regular-expression semantics, nested --set descent, YAML tags (bounded).",
+    "design_ref": "DESIGN.md section 5 (C16)",
+    "technique": "contract-based deductive verification of the `asphalt run` command body and merge_config (pyvc + z3) + bounded differential harness through click's CliRunner",
+    "explanation": "files:each-document-merged-in-the-order-given, merge:over-the-configuration-accumulated-so-far, set:key-split-at-unescaped-dots-and-unescaped, "
+                   "service:named-else-the-only-one-else-default, starts-the-application-exactly-once, a-failing-command-starts-nothing",
 }
